@@ -3,9 +3,15 @@
 package type3
 
 import (
+	"crypto/elliptic"
+
+	"github.com/cloudflare/pat-go/ecdsa"
 	. "github.com/cloudflare/pat-go/internal/vspec"
 	"github.com/cloudflare/pat-go/tokens"
 )
+
+var _ elliptic.Curve
+var _ = ecdsa.SpecVerifies
 
 var _ = tokens.SpecTokenInput
 
@@ -182,3 +188,113 @@ func lemmaInnerReencode(r *InnerTokenRequest, b []byte) {
 	enc := r.Marshal()
 	Vassert(len(enc) <= len(b) && string(enc) == in[:len(enc)])
 }
+
+// ---------------------------------------------------------------------------
+// Attester
+
+// specReqMsg: the signed contents of a rate-limited request:
+// token_type || request_key || name_key_id || encrypted_token_request (16-bit length prefixed).
+//
+//@ spec rec
+func specReqMsg(requestKey, nameKeyID, encrypted string) string {
+	return U16(RateLimitedTokenType) + requestKey + nameKeyID + U16(uint16(len(encrypted))) + encrypted
+}
+
+// specSigOK: the request signature (r || s, 48 bytes each) verifies under the request key over the
+// SHA-384 digest of the request contents.
+//
+//@ spec
+func specSigOK(requestKey, nameKeyID, encrypted string, signature []byte) bool {
+	c := CurveP384()
+	return ECDecOK(c, requestKey) && len(signature) >= 48 &&
+		ecdsa.SpecVerifies(c, ECDecX(c, requestKey), ECDecY(c, requestKey), SHA384(specReqMsg(requestKey, nameKeyID, encrypted)), BE(string(signature[:48])), BE(string(signature[48:])))
+}
+
+//@ func unmarshalPublicKey(curve elliptic.Curve, encodedKey []byte) (pk *ecdsa.PublicKey, err error)
+//@ props C03 C06 C07 C08 C16
+//@ requires curve != nil
+//@ ensures (err == nil) == ECDecOK(curve, string(encodedKey))
+//@ ensures err == nil ==> pk != nil && fresh(pk) && pk.Curve == curve && pk.X != nil && pk.Y != nil && pk.X != pk.Y && fresh(pk.X) && fresh(pk.Y)
+//@ ensures err == nil ==> BigVal(pk.X) == ECDecX(curve, string(encodedKey)) && BigVal(pk.Y) == ECDecY(curve, string(encodedKey))
+//@ ensures err != nil ==> pk == nil
+//@ assigns none
+//@ end
+
+//@ func (a *RateLimitedAttester) innerVerifyRequest(tokenRequest RateLimitedTokenRequest) (err error)
+//@ props C03 C06 C16
+//@ requires len(tokenRequest.EncryptedTokenRequest) <= 65535
+//@ let rk = string(tokenRequest.RequestKey)
+//@ let nk = string(tokenRequest.NameKeyID)
+//@ let enc = string(tokenRequest.EncryptedTokenRequest)
+//@ ensures (err == nil) == specSigOK(rk, nk, enc, tokenRequest.Signature)
+//@ assigns none
+//@ end
+
+// VerifyRequest accepts a request only if the request signature verifies under the request key over the
+// request's exact contents and the request key equals the client's public key blinded with the supplied
+// blind (context 0x0003 || "ClientBlind"); a rejected request never touches the client-state cache.
+
+// The cache is the user's: its contract is an abstract map from client id to state.
+//
+//@ spec ghost
+func CacheHas(c ClientStateCache, id string) bool { return false }
+
+//@ iface ($PKG.ClientStateCache).Get func(c ClientStateCache, clientID string) (st *ClientState, ok bool)
+//@ ensures ok ==> st != nil && PreExisting(st)
+//@ ensures ok == CacheKnown(c, clientID)
+//@ ensures ok ==> st == CacheState(c, clientID)
+//@ assigns none
+//@ pure
+//@ end
+
+// CacheKnown / CacheState: the abstract content of the cache (ghost state of the cache object, keyed by client id).
+//
+//@ spec opaque
+func cacheKey(c ClientStateCache, id string) int { return 0 }
+
+//@ spec ghost
+func cacheKnownAt(k int) bool { return false }
+
+//@ spec ghost
+func cacheStateAt(k int) *ClientState { return nil }
+
+//@ spec
+func CacheKnown(c ClientStateCache, id string) bool { return cacheKnownAt(cacheKey(c, id)) }
+
+//@ spec
+func CacheState(c ClientStateCache, id string) *ClientState { return cacheStateAt(cacheKey(c, id)) }
+
+//@ iface ($PKG.ClientStateCache).Put func(c ClientStateCache, clientID string, state *ClientState)
+//@ ensures CacheKnown(c, clientID) && CacheState(c, clientID) == state
+//@ assigns ghost(cacheKnownAt(cacheKey(c, clientID))), ghost(cacheStateAt(cacheKey(c, clientID)))
+//@ end
+
+// specClientCtx: 0x0003 || "ClientBlind".
+//
+//@ spec
+func specClientCtx() string { return U16(RateLimitedTokenType) + "ClientBlind" }
+
+// specRequestKeyOK: the request key is the client key blinded with the blind key (C06, C08).
+//
+//@ spec
+func specRequestKeyOK(requestKey, blindKeyEnc, clientKeyEnc string) bool {
+	c := CurveP384()
+	k := ecdsa.SpecBlindScalar(c, BE(blindKeyEnc), specClientCtx())
+	return ECDecOK(c, clientKeyEnc) && requestKey == ECEnc(c, ECMulX(c, k, ECDecX(c, clientKeyEnc), ECDecY(c, clientKeyEnc)), ECMulY(c, k, ECDecX(c, clientKeyEnc), ECDecY(c, clientKeyEnc)))
+}
+
+//@ func (a *RateLimitedAttester) VerifyRequest(tokenRequest RateLimitedTokenRequest, blindKeyEnc []byte, clientKeyEnc []byte, anonymousOrigin []byte) (err error)
+//@ props C03 C06 C09 C16
+//@ requires a.cache != nil && len(tokenRequest.EncryptedTokenRequest) <= 65535
+//@ let rk = string(tokenRequest.RequestKey)
+//@ let nk = string(tokenRequest.NameKeyID)
+//@ let enc = string(tokenRequest.EncryptedTokenRequest)
+//@ let cid = HexEnc(string(clientKeyEnc))
+//@ let known = CacheKnown(a.cache, HexEnc(string(clientKeyEnc)))
+//@ let state = CacheState(a.cache, HexEnc(string(clientKeyEnc)))
+//@ ensures[C06] err == nil ==> specSigOK(rk, nk, enc, tokenRequest.Signature)
+//@ ensures[C06] err == nil ==> specRequestKeyOK(rk, string(blindKeyEnc), string(clientKeyEnc))
+//@ ensures[C06 C09] err != nil ==> CacheKnown(a.cache, cid) == known && CacheState(a.cache, cid) == state
+//@ ensures[C09] err == nil ==> CacheKnown(a.cache, cid) && (known ==> CacheState(a.cache, cid) == state)
+//@ assigns ghost(cacheKnownAt(cacheKey(a.cache, HexEnc(string(clientKeyEnc))))), ghost(cacheStateAt(cacheKey(a.cache, HexEnc(string(clientKeyEnc)))))
+//@ end
